@@ -1409,3 +1409,13 @@ VARIANTS += [
     V('C11-E31', 'E', ALL, SL, 'SequentialServlet.start', r"for ss in self\._servlets\[:i\]:", "for ss in reversed(self._servlets[:i]):", note='rollback in reverse order over the same prefix'),
     V('C11-M32', 'M', ('C11', 'C05', 'C07', 'C03'), ST, 'fifo_stream', r"tasks = SingleLane\(capacity \+ 1\)", "tasks = SingleLane(capacity)", ('C11-10', 'C05-4', 'C07-5', 'C03-9'), note='seeded C11-f5m2 shape'),
 ]
+
+VARIANTS += [
+    V('C20-M36', 'M', ('C20',), CX, 'SpawnProcess.start', r"args=\(self\._logger_thread_, self\._child_ended_\),\n", "args=(self._logger_thread_, self._child_ended_),\n            exitpriority=10,\n", ('C20-1',), note='seeded C20-f5m2 shape'),
+]
+
+VARIANTS += [
+    V('C10-M31', 'M', ('C10',), TE, 'Fork.__next__', r"(\n(\s+))self\.next = box\.next\n", r"\1self.next = box.next\1if box.n == self.n_forks:\1    box.next = None\n", ('C10-9',), note='seeded C10-f5m1 shape'),
+    V('C15-M32', 'M', ('C15', 'C12', 'C14', 'C04'), RX, 'RemoteException.__init__', r"traceback\.format_exception\(type\(exc\), exc, tb\)", r"traceback.format_exception(type(exc), exc, tb, limit=100)", ('C15-3', 'C12-9', 'C14-8'), count=1, note='seeded C15-f5m1 shape'),
+    V('C18-M32', 'M', ('C18',), SO, 'SocketServer._handle_connection', r"reqs = asyncio\.Queue\(self\._backlog\)", "reqs = self._reqs", ('C18-14',), note='seeded C18-f5m1 shape'),
+]
